@@ -194,6 +194,37 @@ def r4(ctx):
             fe_all += fe
             te_all += te
     sends = pushes + emit
+    # the length that is compared is the buffer's length, not a narrowed copy of it (`buf.len() as u32` wraps past 4 GiB and the test passes)
+    WIDTH = {"u8": 8, "u16": 16, "u32": 32, "u64": 64, "usize": 64, "i32": 32, "i64": 64, "u128": 128}
+    for sbb, te, fe, o in guards_on(b, lambda o: o["k"] == "bin" and o["op"] in ("Gt", "Le", "Lt", "Ge")):
+        sides = [(o["a"], o["b"]), (o["b"], o["a"])]
+        for x, y in sides:
+            if "call:turmoil_net::kernel::udp::max_payload" not in Slicer(ctx.w).atoms(b, y):
+                continue
+            narrowed = None
+            cur = x
+            for _ in range(8):
+                pl = op_place(cur)
+                if pl is None or pl.get("p"):
+                    break
+                d = single_def(b, pl["l"])
+                if d is None or d[1] == "term":
+                    break
+                r = d[2]["r"]
+                if r["k"] == "cast" and op_place(r["o"]) is not None and not op_place(r["o"]).get("p"):
+                    src = b.tys[b.locals[op_place(r["o"])["l"]]["ty"]].get("s")
+                    dst = b.tys[r["ty"]].get("s")
+                    if WIDTH.get(src, 0) > WIDTH.get(dst, 64):
+                        narrowed = (src, dst, d[2]["s"])
+                    cur = r["o"]
+                elif r["k"] == "use":
+                    cur = r["o"]
+                else:
+                    break
+            ctx.inst(R, "send:length-not-narrowed", narrowed is None, narrowed[2] if narrowed else b.term(sbb).get("s", b.span),
+                     "the buffer length is compared at full width" if narrowed is None else
+                     f"the datagram length is cast from {narrowed[0]} to {narrowed[1]} before it is compared with max_payload: a payload of 4 GiB + n bytes wraps to n, "
+                     "passes the MTU test and is queued instead of being rejected with EMSGSIZE")
     if not sends:
         ctx.bad(R, "send:mtu-guard", b.span, "no packet emission found in the UDP send path")
     def _guards(fb):
@@ -248,7 +279,7 @@ def r4(ctx):
         ctx.inst(R, "mtu-selection:udp~tcp", ok, sa, f"both choose loopback_mtu under {sorted(x.rsplit('::', 1)[1] for x in pa)}" if ok else
                  f"udp::max_payload chooses the loopback MTU under {sorted(pa)} but tcp::mss_for under {sorted(pb)}: on a path where they differ one protocol "
                  "accepts a payload that the other bounds by the smaller MTU (a datagram larger than the MTU of the interface it leaves from is accepted)")
-    ctx.floor(R, 3)
+    ctx.floor(R, 4)
 
 
 def _header_forms(fb, l4):
